@@ -172,12 +172,13 @@ Fixpoint reads_ok (scripts : list (list call)) (res : list (list Z)) (rd : list 
   | _, _ => true
   end.
 
-Definition observed := (list event * list nat * list (list Z) * list bool * list Z * list Z)%type.
+(* last component: how the run ended: 0 all finished, 1 deadlock, 2 schedule exhausted / stopped *)
+Definition observed := (list event * list nat * list (list Z) * list bool * list Z * list Z * Z)%type.
 
 Definition monitors (lockrec : bool) (k : Z) (scripts : list (list call)) (o : observed) : bool :=
-  let '(es, ks, res, fins, vals, pend) := o in
+  let '(es, ks, res, fins, vals, pend, endk) := o in
   let m := mon_run scripts (length scripts) mon0 es ks in
-  m_ok m && all_results_ok scripts res && quiescent_ok lockrec fins vals && pending_ok pend
+  m_ok m && all_results_ok scripts res && quiescent_ok lockrec fins vals && ((endk =? 2) || pending_ok pend)
   && reads_ok scripts res (m_rd m) 0 && user_vals_ok k vals.
 
 (* ------------------------------------------------------------------ correspondence
@@ -195,7 +196,7 @@ Definition model_obs (lockrec : bool) (k : Z) (scripts : list (list call))
    same semaphore history gave different call results; 1 = other difference *)
 Definition check_case (c : case) : Z :=
   let '(lockrec, k, scripts, sched, o) := c in
-  let '(es, ks, res, fins, vals, pend) := o in
+  let '(es, ks, res, fins, vals, pend, endk) := o in
   let '(mes, mres, mfins, mvals, ok) := model_obs lockrec k scripts sched in
   let same_ev := list_eqb event_eqb es mes && ok in
   let same_res := list_eqb (list_eqb Z.eqb) res mres in
